@@ -9,6 +9,12 @@ TEXT = {
  "model_checking": "The property is stated as invariants / action properties of the TLA+ specification and checked by TLC on the models listed in the evidence; the real code is bound to that specification by trace validation: every call made by the listed driver families and TLC-generated scenarios is recorded (arguments, full result, buffers, payload offsets, both EID cells) and TLC (spec/Trace.tla) evaluates this property's predicate on every event. Spec-level result: exhaustive for the stated constants. Code-level result: holds on every explored call; exhaustive only where the evidence says so.",
  "exploration": "Observed on the real code over the input classes the property's quantifier names, enumerated from the specification; the TLA+ spec supplies the oracle (TLC evaluates it on every recorded event) but cannot prove absence of panics / cover 2^32 raw patterns, so this is exploration, not proof.",
 }
+PER_PROP = {
+ "C10": "Observed on the real code: every decode_packet / get_length / process_packet call made by the listed families and TLC-generated scenarios is wrapped in catch_unwind and a panic is recorded as an outcome, which fails this property unless an open known finding explains it exactly. The TLA+ spec supplies the enumeration of the input classes the quantifier names (every truncation point, command code, completion code, operation, selector, length around the limits) and, on the ideal spec, an outcome for every input that is never 'panic' (MC_Decode, MC_Endpoint). Absence of panics in Rust cannot be model-checked from here, so this is exploration, not proof. Only unwinding panics are observed: an abort, stack overflow or non-terminating call ends the harness and is reported as a tool error (exit 2), not as a violation.",
+ "C18": "Pure bit-layout functions. On the spec: two independent transcriptions of every layout (byte/bit table vs. the documented MSB0/LSB0 bit ranges) agree for all raws of the 1- and 2-byte views and per-byte sweeps of the 4-byte views, setters change only their field (MC_Layout). On the code: every getter / setter / constructor / validator call is recorded and TLC evaluates the layout table on it; reads are exhaustive for the 2^8 and 2^16 views in the thorough tier, everything else (writes, the 2^32 views) is per-byte exhaustive and otherwise sampled - hence exploration.",
+ "C17": "On the spec the length probe is a three-line function of bytes 1-2 (checked by TLC over MC_Decode's byte strings). The substance is on the code: the thorough tier executes all 2^24 three-byte prefixes with 7 continuations each on three contexts (65 536 batch events, each required to produce the single result the spec computes), the quick tier all command-code bytes x edge values; inputs shorter than three bytes must be rejected. Recorded events are judged by TLC (Trace.tla).",
+ "C19": "On the spec the code-point tables are checked by TLC as ASSUMEs (total, inverting the numeric values; MC_Layout). On the code the check is exhaustive: all 256 bytes for command codes and message types, 0-5 for completion codes, each conversion recorded and judged by TLC against the tables.",
+}
 NOTE = "Trusted base: TLC, the TLA+ modules in spec/ (transcribed from DSP0236/DSP0237 and the property text, cross-checked by TLC), the recording harness (no reference implementation inside), rustc. Events are judged by TLC only; the Python wrapper orchestrates and counts."
 
 def main():
@@ -17,7 +23,9 @@ def main():
         p = PLAN[prop]
         fam = ", ".join(f if isinstance(f, str) else "%s x%d" % f for f in p.get("families", []))
         mods = ", ".join(p.get("models", []))
-        gens = ", ".join(p.get("gen", []))
+        gq = p.get("gen_quick", p.get("gen", []))
+        gt = p.get("gen_thorough", p.get("gen", []))
+        gens = ", ".join(gq) + ((" (thorough: " + ", ".join(gt) + ")") if gt != gq else "")
         checks.append({
             "property_id": prop,
             "quick_cmd": "./check %s --tier quick" % prop,
@@ -25,7 +33,7 @@ def main():
             "evidence_file": "evidence/%s.json" % prop,
             "replay_cmd_template": "./check --replay {path}",
             "engine": "tlc-trace" if not mods else "tlc-model+tlc-trace",
-            "level_claimed": {"category": p["level"], "text": TEXT[p["level"]], "design_ref": "DESIGN.md section 6, " + prop},
+            "level_claimed": {"category": p["level"], "text": PER_PROP.get(prop, TEXT[p["level"]]), "design_ref": "DESIGN.md section 14 (as built; 14.10 lists what this check runs) and section 6 (original plan; section 14 prevails), " + prop},
             "level_note": NOTE,
             "technique": "TLA+ spec model-checked with TLC (%s); conformance by TLC trace validation of recorded executions (driver families: %s%s)" % (
                 mods or "shared Codec/Responder operators", fam, ("; TLC-generated scenarios: " + gens) if gens else ""),
